@@ -1,4 +1,5 @@
 import Blue.Driver.Util
+import Blue.Driver.C05
 import Blue.Driver.C16
 import Blue.Driver.C11
 import Blue.Driver.C14
@@ -12,6 +13,8 @@ def dispatch (toks : List String) : String :=
   | "cur" :: rest => Blue.Driver.C11.handle rest
   | "tk1" :: rest => Blue.Driver.C16.K1.handle rest
   | "tk2" :: rest => Blue.Driver.C16.K2.handle rest
+  | "gc" :: rest => Blue.Driver.C05.handleGc rest
+  | "split" :: rest => Blue.Driver.C05.handleSplit rest
   | _ => "bad-op"
 
 partial def loop (h : IO.FS.Stream) (out : IO.FS.Stream) : IO Unit := do
